@@ -69,6 +69,9 @@ def list_ops(defs, locs, fail=False):
             other = cands[(len(defs) + 1) % len(cands)]
             if other != dsc:
                 ops.append(("loadn", ((t, other), (t, dsc))))
+                # the same with overwrite=False: an existing definition is kept; otherwise the FIRST entry for a
+                # target is installed and the later one is skipped like any other existing definition
+                ops.append(("loadn", ((t, other), (t, dsc)), False))
     for t in (locs if fail else []):
         # an expression whose evaluation raises (it reads a key that does not exist): the assignment fails;
         # whatever definition of t the manager reports afterwards is the surviving one
@@ -321,9 +324,12 @@ class HState(c01.State):
             entries = []
             for t, dsc in op[1]:
                 entries.append((str(U.getref(self.r, t)), str(U.build(dsc, self.r, self.fr))))
-            self.hist.append("load([" + ", ".join(f"{t} = {U.show(dsc)}" for t, dsc in op[1]) + "])")
-            self.m.load(entries)
+            ow = op[2] if len(op) > 2 else True
+            self.hist.append("load([" + ", ".join(f"{t} = {U.show(dsc)}" for t, dsc in op[1]) + "]" + ("" if ow else ", overwrite=False") + ")")
+            self.m.load(entries, overwrite=ow)
             for t, dsc in op[1]:
+                if not ow and t in self.defs:
+                    continue
                 self.defs[t] = dsc
                 self.kinds.pop(t, None)
                 self._touch(t)
